@@ -143,31 +143,35 @@ def mul_ui (prec : Nat) (u : F) (v : Nat) : F :=
 
 /- ------------------------------------------------------------------ add -/
 
+/-- add.c:126-164: the three overlap geometries on the selected limbs (`up` non-empty, `vp` non-empty,
+    ed = ediff < prec).  Returns (tp, cy); tp has max(usize, vsize+ed) limbs. -/
+def addLimbs (up vp : List Nat) (ed : Nat) : List Nat × Nat :=
+  let usize := up.length
+  let vs := vp.length
+  if usize > ed then
+    if vs + ed ≤ usize then                    -- :132-141  uuuu / v
+      let size := usize - ed - vs
+      let (hi, cy) := addv (up.drop size) vp
+      (up.take size ++ hi, cy)
+    else                                       -- :142-151  uuuu / vvvvv
+      let size := vs + ed - usize
+      let (hi, cy) := addv up (vp.drop size)
+      (vp.take size ++ hi, cy)
+  else                                         -- :153-164  uuuu / (gap) vv
+    (vp ++ List.replicate (ed - usize) 0 ++ up, 0)
+
+/-- add.c:98-102: the part of V inside the precision window (`vp += vsize + ediff - prec`) -/
+def selV (prec : Nat) (vd : List Nat) (ediff : Int) : List Nat :=
+  if (vd.length : Int) + ediff > prec then vd.drop ((vd.length : Int) + ediff - prec).toNat else vd
+
 /-- add.c:66-174 for operands of equal sign, both non-zero, uexp ≥ vexp.  Returns (limbs, exp). -/
 def addMag (prec : Nat) (ud : List Nat) (uexp : Int) (vd : List Nat) (vexp : Int) : List Nat × Int :=
   let ediff : Int := uexp - vexp                 -- :87
   let up := top prec ud                          -- :90-94
-  let usize := up.length
-  let vsize0 : Int := vd.length
-  -- :98-102 (may make vsize ≤ 0)
-  let vp := if vsize0 + ediff > prec then vd.drop (vsize0 + ediff - prec).toNat else vd
-  let vsize : Int := if vsize0 + ediff > prec then prec - ediff else vsize0
+  let vp := selV prec vd ediff                   -- :98-102
   if ediff ≥ prec then (up, uexp)                -- :117-123 V completely cancelled
   else
-    let ed := ediff.toNat
-    let vs := vsize.toNat
-    let (tp, cy) : List Nat × Nat :=
-      if usize > ed then
-        if vs + ed ≤ usize then                  -- :132-141  uuuu / v
-          let size := usize - ed - vs
-          let (hi, cy) := addv (up.drop size) vp
-          (up.take size ++ hi, cy)
-        else                                     -- :142-151  uuuu / vvvvv
-          let size := vs + ed - usize
-          let (hi, cy) := addv up (vp.drop size)
-          (vp.take size ++ hi, cy)
-      else                                       -- :153-164  uuuu / (gap) vv
-        (vp ++ List.replicate (ed - usize) 0 ++ up, 0)
+    let (tp, cy) := addLimbs up vp ediff.toNat
     (if cy ≠ 0 then tp ++ [cy] else tp, uexp + cy)   -- :166-169
 
 /- ------------------------------------------------------------------ sub -/
